@@ -1423,7 +1423,9 @@ func (cx *Ctx) checkDeferredErrOverwrite(r *Report, rule, key string, fn *ssa.Fu
 				continue
 			}
 			// `defer s.observe(ctx, "call", &err)`: a deferred module function handed the address of the result
-			if g := calleeOf(d); g != nil && g.Blocks != nil {
+			if _, isLit := d.Call.Value.(*ssa.MakeClosure); isLit {
+				// (a function literal: handled below through what it captures)
+			} else if g := calleeOf(d); g != nil && g.Blocks != nil {
 				args := d.Call.Args
 				for ai, a := range args {
 					if a != ssa.Value(cell) || ai >= len(g.Params) {
